@@ -11,8 +11,8 @@ pub fn num_cases(ctx: &Ctx) -> u64 {
     match (ctx.mode, ctx.tier) {
         (Mode::Miri, _) => 24,
         (Mode::Asan | Mode::Tsan, _) => 1500,
-        (Mode::Native, Tier::Quick) => 6000,
-        (Mode::Native, Tier::Thorough) => 120_000,
+        (Mode::Native, Tier::Quick) => 20_000,
+        (Mode::Native, Tier::Thorough) => 300_000,
     }
 }
 
